@@ -325,7 +325,9 @@ func c05Wire(run *evid.Run, cfg Cfg) {
 			isAtt, isProp, isExit := bytes.Equal(dom[:4], DomainAttester), bytes.Equal(dom[:4], DomainProposer), bytes.Equal(dom[:4], DomainExit)
 			ki := r.Intn(12)
 			run.Eval(1)
-			cell := func(ep, out string) string { return fmt.Sprintf("wire %s dom=%s src-listed=%v -> %s", ep, dc.name, listed, out) }
+			cell := func(ep, out string) string {
+				return fmt.Sprintf("wire %s dom=%s src-listed=%v -> %s", ep, dc.name, listed, out)
+			}
 			switch r.Intn(4) {
 			case 0:
 				c := wfGen(r, env, ki)
